@@ -4,7 +4,12 @@
   it.  Every function follows the code, including *where* the lazy TTL expiry pass runs.
 
   State: the OrderedDict of documents (store key, document), the index dicts, the TTL index
-  dict, the force-created flag and a counter for generated ObjectIds.
+  dict, the created flag and a counter for generated ObjectIds.
+
+  The created flag (`_is_force_created`) RECORDS existence: it is set by every
+  `self._store[key] = …` (`CollectionStore.__setitem__`: the insert, also one that the uniqueness
+  check rolls back afterwards) and by `CollectionStore.create_index`, and reset by `drop()` only;
+  `index_information()` shows `_id_` exactly for a created collection (`indexNames`).
 -/
 import MongoModel.Update
 import MongoModel.DateTime
@@ -70,10 +75,15 @@ def Coll.lookup (c : Coll) (k : Val) : Option Val :=
 
 def Coll.hasKey (c : Coll) (k : Val) : Bool := c.docs.any (fun p => pyEq p.1 k)
 
-/-- `_documents[key] = val`: overwrite in place or append -/
+/-- `_documents[key] = val`: overwrite in place or append (also: a stored document rewritten
+    in place by an update, which goes through no method of the store) -/
 def Coll.setDoc (c : Coll) (k d : Val) : Coll :=
   if c.hasKey k then { c with docs := c.docs.map (fun p => if pyEq p.1 k then (p.1, d) else p) }
   else { c with docs := c.docs ++ [(k, d)] }
+
+/-- `self._store[key] = val` (`CollectionStore.__setitem__`, store.py:122-125):
+    `_is_force_created = True`, then `_documents[key] = val` -/
+def Coll.storeDoc (c : Coll) (k d : Val) : Coll := { c.setDoc k d with forceCreated := true }
 
 def Coll.delDoc (c : Coll) (k : Val) : Coll :=
   { c with docs := c.docs.filter (fun p => !pyEq p.1 k), od := c.od.filter (fun x => !pyEq x k) }
@@ -86,7 +96,14 @@ def pyEqOrdered (a b : Val) : Bool :=
   | .doc fs, .doc gs => pyEq a b && dkeys fs == dkeys gs
   | _, _ => pyEq a b
 
+/-- `is_created` (store.py:79-81) -/
 def Coll.isCreated (c : Coll) : Bool := !c.docs.isEmpty || !c.indexes.isEmpty || c.forceCreated
+
+/-- existence is recorded: a collection that holds a document or an index has the created flag
+    set (documents get in through `__setitem__` only, indexes through `create_index` only, and
+    both set the flag; `drop()` clears all three).  An invariant of every history, not of every
+    value of the type (`Proofs.C08Lemmas.recorded_stepX`, `Props.C08.reachable_recorded`). -/
+def Coll.Recorded (c : Coll) : Prop := (c.docs ≠ [] ∨ c.indexes ≠ []) → c.forceCreated = true
 
 /-! ### TTL expiry (store.py:137-188) -/
 
@@ -190,11 +207,38 @@ def insertDoc (now : Int) (c : Coll) (data : Val) : R (Coll × Val) :=
     let c1 ← expire now c0                      -- `object_id in self._store`
     if c1.hasKey key then .error .dupKey
     else do
-      let c2 := c1.setDoc key d
+      let c2 := c1.storeDoc key d               -- `self._store[object_id] = data`
       match ensureUniques now c2 d with
       | .ok c3 => pure (c3, id)
-      | .error e => .error e                    -- rollback: nothing of this insert remains
+      | .error e => .error e                    -- rollback (`discard`): see `insertStored`
   | _ => .error .typeErr
+
+/-- the insert got as far as `self._store[object_id] = data` (the `_id` is storable and not yet
+    stored).  When it is rejected after that point - by `_ensure_uniques` - the document is
+    discarded again, but `__setitem__` has set `_is_force_created` and nothing resets it. -/
+def insertStored (now : Int) (c : Coll) (data : Val) : Bool :=
+  match data with
+  | .doc fs =>
+    let (fs1, c0) := if dhas "_id" fs then (fs, c)
+      else (dset "_id" (.oid c.nextOid) fs, { c with nextOid := c.nextOid + 1 })
+    let id := match patchDT (.doc fs1) with | .doc ds => (dget "_id" ds).getD .null | _ => .null
+    match storeKey id, expire now c0 with
+    | .ok key, .ok c1 => !c1.hasKey key
+    | _, _ => false
+  | _ => false
+
+/-- the created flag after an insert into `c` was rejected, left on the state `c'` the rejected
+    insert otherwise leaves -/
+def Coll.markStored (c' : Coll) (stored : Bool) : Coll :=
+  if stored then { c' with forceCreated := true } else c'
+
+/-- what a rejected `_insert(data)` leaves behind: it consumed the ObjectId it generated, ran the
+    expiry pass, and - when it had already stored the document - set the created flag -/
+def insertRejected (now : Int) (c : Coll) (data : Val) : Coll :=
+  let c0 : Coll := match data with
+    | .doc fs => if dhas "_id" fs then c else { c with nextOid := c.nextOid + 1 }
+    | _ => c
+  (match expire now c0 with | .ok x => x | .error _ => c0).markStored (insertStored now c data)
 
 /-! ### update (collection.py `_apply_update`) -/
 
@@ -271,7 +315,22 @@ def updateLoop (now : Int) (spec document : Val) (nowV : Val) (multi : Bool) :
                 if multi then updateLoop now spec document nowV multi rest c2 (matched + 1) (updated + 1)
                 else (c2, .ok (matched + 1, updated + 1))
 
-/-- `_apply_update(spec, document, upsert, multi)`; options are checked by the callers -/
+/-- the document an upsert inserts: the seed built from the filter (`_expand_dots`,
+    `_discard_operators`) with the update applied to it as to an inserted document -/
+def upsertDoc (spec document nowV : Val) (ss : Fields) (idv : Val) : R Val := do
+  let expanded ← expandDots (dset "_id" idv ss)
+  let seed := (discardOps (.doc expanded)).1
+  -- `_expand_dots` stores the filter's `_id` sub-document by reference and writes
+  -- the `_id.x` conditions into it: `spec['_id']` is that same, now larger, object
+  let spec' := match dget "_id" ss, dget "_id" expanded with
+    | some (.doc _), some (.doc e) => Val.doc (dset "_id" (.doc e) ss)
+    | _, _ => spec
+  applyUpdate spec' document nowV true seed
+
+/-- `_update` / `_apply_update(spec, document, upsert, multi)`; options are checked by the callers.
+    (The rollback of `_update` re-assigns the snapshot with `self._store[key] = snapshot`, which
+    also sets `_is_force_created`: a no-op wherever a document is stored - `Coll.Recorded` - and
+    not modelled separately.) -/
 def applyUpdateColl (cfg : Cfg) (now : Int) (c : Coll) (spec0 document0 : Val) (upsert multi : Bool) :
     Coll × R UpdateResult :=
   let spec := patchDT spec0
@@ -306,23 +365,18 @@ def applyUpdateColl (cfg : Cfg) (now : Int) (c : Coll) (spec0 document0 : Val) (
               | none => (match dget "_id" dfs with
                 | some w => (w, c3)
                 | none => (Val.oid c3.nextOid, { c3 with nextOid := c3.nextOid + 1 }))
-            match (do
-                let expanded ← expandDots (dset "_id" idv ss)
-                let seed := (discardOps (.doc expanded)).1
-                -- `_expand_dots` stores the filter's `_id` sub-document by reference and writes
-                -- the `_id.x` conditions into it: `spec['_id']` is that same, now larger, object
-                let spec' := match dget "_id" ss, dget "_id" expanded with
-                  | some (.doc _), some (.doc e) => Val.doc (dset "_id" (.doc e) ss)
-                  | _, _ => spec
-                let built ← applyUpdate spec' document nowV true seed
-                insertDoc now c4 built) with
+            match upsertDoc spec document nowV ss idv with
             | .error e => (c4, .error e)
-            | .ok (c5, newId) =>
-              -- the inserted object is the OrderedDict built by `_discard_operators`
-              let c6 := match storeKey newId with
-                | .ok k => { c5 with od := c5.od ++ [k] }
-                | .error _ => c5
-              (c6, .ok ⟨1, 0, some newId, false⟩)
+            | .ok built =>
+              match insertDoc now c4 built with
+              -- a rejected upsert insert: the flag as `insertRejected` leaves it
+              | .error e => (c4.markStored (insertStored now c4 built), .error e)
+              | .ok (c5, newId) =>
+                -- the inserted object is the OrderedDict built by `_discard_operators`
+                let c6 := match storeKey newId with
+                  | .ok k => { c5 with od := c5.od ++ [k] }
+                  | .error _ => c5
+                (c6, .ok ⟨1, 0, some newId, false⟩)
   | _, _ => (c, .error .typeErr)
 
 /-! ### delete, reads -/
@@ -435,9 +489,11 @@ where
       let put (l : List Index) : List Index :=
         if l.any (fun i => i.name == ix.name) then l.map (fun i => if i.name == ix.name then ix else i)
         else l ++ [ix]
+      -- `CollectionStore.create_index` (store.py:89-93): sets `_is_force_created`
       (match ix.ttl with
-       | some _ => ({ c1 with indexes := put c1.indexes, ttlIndexes := put c1.ttlIndexes }, .ok ix.name)
-       | none => ({ c1 with indexes := put c1.indexes }, .ok ix.name))
+       | some _ => ({ c1 with indexes := put c1.indexes, ttlIndexes := put c1.ttlIndexes,
+                              forceCreated := true }, .ok ix.name)
+       | none => ({ c1 with indexes := put c1.indexes, forceCreated := true }, .ok ix.name))
 
 def dropIndexColl (now : Int) (c : Coll) (name : String) : Coll × R Unit :=
   match expire now c with
